@@ -415,7 +415,7 @@ func genCLISweep(r *rand.Rand, tier string) []*Probe {
 	}
 	fmts := []string{"CSV", "TSV", "FIXED", "JSON", "JSONL", "LTSV", "GFM", "ORG", "BOX", "TEXT"}
 	for _, f := range fmts {
-		for _, q := range []string{"SELECT * FROM t", "SELECT * FROM e", "SELECT 1 AS `a.b`, 2 AS `a.c`, 3 AS `a`", "SELECT 'a\nb' AS `x\ny`, '\t', '\"', '|', NULL, TRUE, 1.5, NOW()", "SELECT 1 AS ``, 2 AS ` `", "SELECT '" + strings.Repeat("w", 3000) + "' AS x"} {
+		for _, q := range []string{"SELECT * FROM t", "SELECT * FROM e", "SELECT 1 AS `a.b`, 2 AS `a.c`, 3 AS `a`", "SELECT 1 AS `a`, 2 AS `a.b`", "SELECT 'a\nb' AS `x\ny`, '\t', '\"', '|', NULL, TRUE, 1.5, NOW()", "SELECT 1 AS ``, 2 AS ` `", "SELECT '" + strings.Repeat("w", 3000) + "' AS x"} {
 			ps = append(ps, sqlProbe("cli", "--format", q, "-f", f))
 			ps = append(ps, sqlProbe("cli", "--format", q, "-f", f, "--without-header", "--enclose-all", "--write-delimiter-positions", "[1,2,3]", "--line-break", "CRLF", "--write-encoding", "SJIS", "--pretty-print"))
 			ps = append(ps, sqlProbe("cli", "--format", q, "-f", f, "--write-delimiter-positions", "S[1]", "--write-encoding", "UTF16", "--json-escape", "HEX"))
